@@ -884,6 +884,10 @@ func (req *IdpAuthnRequest) MakeAssertionEl() error {
 	var signedAssertionBuf []byte
 	{
 		doc := etree.NewDocument()
+		// write CR (and TAB/LF in attributes) as character references so
+		// that the signed content survives XML line-end normalization
+		doc.WriteSettings.CanonicalText = true
+		doc.WriteSettings.CanonicalAttrVal = true
 		doc.SetRoot(signedAssertionEl)
 		signedAssertionBuf, err = doc.WriteToBytes()
 		if err != nil {
@@ -928,6 +932,8 @@ func (req *IdpAuthnRequest) PostBinding() (IdpAuthnRequestForm, error) {
 	}
 
 	doc := etree.NewDocument()
+	doc.WriteSettings.CanonicalText = true
+	doc.WriteSettings.CanonicalAttrVal = true
 	doc.SetRoot(req.ResponseEl)
 	responseBuf, err := doc.WriteToBytes()
 	if err != nil {
